@@ -33,17 +33,50 @@ type ReplayFile struct {
 	Note        string            `json:"note,omitempty"`
 }
 
-var reDefFun = regexp.MustCompile(`\(define-fun ([^ ]+) \(\) ([A-Za-z0-9_]+)\s+([^\n]+)\)`)
+var reGetVal = regexp.MustCompile(`\((\([a-z.]+ p_[A-Za-z0-9_]+(?: [0-9]+| nil)?\)|p_[A-Za-z0-9_]+) (\(- [0-9]+\)|[0-9]+|true|false)\)`)
 
-// modelInputs extracts constant assignments (parameters p_*, loop variables) from a z3 model.
+// modelInputs extracts the values of the function's inputs from the solver's get-value answer:
+// Int/Bool parameters directly; strings as "len" and leading bytes, decoded into p_x = "text".
 func modelInputs(model string) map[string]string {
 	m := map[string]string{}
-	flat := strings.ReplaceAll(model, "\n    ", " ")
-	for _, mm := range reDefFun.FindAllStringSubmatch(flat, -1) {
-		name := mm[1]
-		if strings.HasPrefix(name, "p_") || strings.Contains(name, "_L") || strings.HasPrefix(name, "fv_") {
-			m[name] = strings.TrimSpace(mm[3])
+	strLen := map[string]int{}
+	strBytes := map[string]map[int]int{}
+	for _, mm := range reGetVal.FindAllStringSubmatch(model, -1) {
+		term, val := mm[1], mm[2]
+		val = strings.TrimSuffix(strings.TrimPrefix(val, "(- "), ")")
+		if mm[2] != val {
+			val = "-" + val
 		}
+		switch {
+		case strings.HasPrefix(term, "(slen "):
+			n := strings.TrimSuffix(strings.TrimPrefix(term, "(slen "), ")")
+			fmt.Sscanf(val, "%d", new(int))
+			var l int
+			fmt.Sscanf(val, "%d", &l)
+			strLen[n] = l
+		case strings.HasPrefix(term, "(sat "):
+			var n string
+			var i, b int
+			fmt.Sscanf(strings.TrimSuffix(strings.TrimPrefix(term, "(sat "), ")"), "%s %d", &n, &i)
+			fmt.Sscanf(val, "%d", &b)
+			if strBytes[n] == nil {
+				strBytes[n] = map[int]int{}
+			}
+			strBytes[n][i] = b
+		default:
+			m[term] = val
+		}
+	}
+	for n, l := range strLen {
+		if l > 12 {
+			m[n+".len"] = fmt.Sprint(l)
+			l = 12
+		}
+		bs := make([]byte, l)
+		for i := 0; i < l; i++ {
+			bs[i] = byte(strBytes[n][i])
+		}
+		m[n] = string(bs)
 	}
 	return m
 }
